@@ -27,6 +27,7 @@ import (
 	"unicode/utf8"
 
 	"github.com/XiaoMi/Gaea/models"
+	"github.com/XiaoMi/Gaea/proxy/server"
 	"github.com/XiaoMi/Gaea/util/crypto"
 	"pgregory.net/rapid"
 	"verifharness/internal/nsgen"
@@ -387,6 +388,48 @@ func checkRT(c rtCase) (o pbt.Outcome) {
 			return
 		}
 	}
+	// what a proxy does at start-up: copy the coordinator's namespaces to its local storage and
+	// use the decrypted set (SyncNamespaces); later, without coordinator, load the local copy.
+	remote := newMem(c.Prefix)
+	if err := models.NewStore(remote).UpdateNamespace(ns); err != nil {
+		o.Violation = "UpdateNamespace on the in-memory coordinator failed: " + err.Error()
+		return
+	}
+	lc2, lerr := models.NewLocalClient(filepath.Join(root, "storage", "proxy2"), c.Prefix)
+	if lerr != nil {
+		o.Violation = "NewLocalClient failed: " + lerr.Error()
+		return
+	}
+	var synced, fromLocal map[string]*models.Namespace
+	var serr, flerr error
+	if g := guard(func() {
+		synced, serr = server.SyncNamespaces(remote, lc2, key)
+		fromLocal, flerr = server.LoadDecryptNamespaces(lc2, key)
+	}); g.any() != "" {
+		o.Violation = "SyncNamespaces / LoadDecryptNamespaces panicked: " + g.any()
+		return
+	}
+	for _, r := range []struct {
+		what string
+		got  map[string]*models.Namespace
+		err  error
+	}{{"SyncNamespaces", synced, serr}, {"LoadDecryptNamespaces(local copy)", fromLocal, flerr}} {
+		if r.err != nil {
+			o.Violation = fmt.Sprintf("%s failed for a namespace the control plane stored: %v", r.what, r.err)
+			return
+		}
+		if len(r.got) != 1 {
+			o.Violation = fmt.Sprintf("%s returned %d namespaces, one was stored", r.what, len(r.got))
+			return
+		}
+		for k, v := range r.got {
+			if !reflect.DeepEqual(v, ref) {
+				o.Violation = fmt.Sprintf("%s()[%q] differs from the verified configuration: %s", r.what, k, firstDiff(v, ref))
+				return
+			}
+		}
+	}
+	o.Labels = append(o.Labels, "synced_to_local_copy")
 	if stray := strayEntries(root); len(stray) > 0 {
 		o.Violation = fmt.Sprintf("local persistence created %v next to its storage directory", stray)
 	}
@@ -406,7 +449,7 @@ func strayEntries(root string) []string {
 }
 
 func TestC33RoundTrip(t *testing.T) {
-	pbt.Run(t, pbt.Spec{ID: "C33", Sub: "roundtrip", Quick: 3000, Thorough: 30000,
+	pbt.Run(t, pbt.Spec{ID: "C33", Sub: "roundtrip", Quick: 2000, Thorough: 10000,
 		Rule: "valid namespaces from the C10 generator; user and backend credentials replaced by raw byte strings (ASCII punctuation, arbitrary bytes, invalid UTF-8, NUL/control bytes, cipher block boundaries, padding look-alikes, surrounding white space); keys of 16/24/32 bytes (90%) or invalid lengths; store prefixes and namespace names of several shapes; Verify -> Encrypt -> UpdateNamespace -> LoadNamespace/LoadNamespaces through an in-memory client and through LocalClient; non-trivial = round trip completed with at least one credential that is not valid UTF-8",
 		Floor: 0.3}, genRT, checkRT)
 }
@@ -714,7 +757,7 @@ func checkPaths(c pathCase) (o pbt.Outcome) {
 }
 
 func TestC33Paths(t *testing.T) {
-	pbt.Run(t, pbt.Spec{ID: "C33", Sub: "paths", Quick: 4000, Thorough: 40000,
+	pbt.Run(t, pbt.Spec{ID: "C33", Sub: "paths", Quick: 2000, Thorough: 10000,
 		Rule: "1-8 LocalClient / Store operations on a fresh storage directory with paths and namespace names built from '..', '.', empty, dotted, absolute, over-long components and the characters the client forbids, under several store prefixes; the resolved path is computed first (FullNamespacePath / FullDirPath) and must lie in the storage directory, then the operation runs and the storage directory's parent must hold nothing else; non-trivial = some path contains '..' or is absolute",
 		Floor: 0.5}, genPaths, checkPaths)
 }
